@@ -245,3 +245,10 @@ def parse_result_is_private(ctx):
                 and (n.targets[0] if isinstance(n, ast.Assign) else n.target).id == name and n.value is not None and U(n.value) in ("dict()", "{}") for n in ast.walk(fn))
     params = {a.arg for a in fn.args.args + fn.args.kwonlyargs}
     ctx.check("Parser.parse returns a dictionary created by this call", fresh and name not in params, f"{name} = dict() inside parse()", f"fresh={fresh}, parameter={name in params}", fn_where(idx, fi))
+
+
+@rule("R18.4", "C18", "the pool's workers parse like the sequential parser: same grammar text, same Lark options (an option such as ordered_sets=False makes ambiguity resolution depend on the process's hash seed)", min_instances=2)
+def r18_4(ctx):
+    from .c17 import r17_6
+
+    r17_6(ctx)
